@@ -498,8 +498,27 @@ def typeof(v):
     raise TypeError("value of %s has no encodable type" % type(v).__name__)
 
 
+def _eta(dt, parts):
+    """mk(acc1(x), acc2(x), ...) == x : keeps quantified container variables as plain variables (triggers)"""
+    x = None
+    for acc, e in parts:
+        if not (z3.is_app(e) and e.num_args() == 1 and e.decl().eq(getattr(dt, acc))):
+            return None
+        if x is None:
+            x = e.arg(0)
+        elif not x.eq(e.arg(0)):
+            return None
+    return x
+
+
 def unwrap(v, t):
     """V -> z3 expression of sort t.sort() (with coercions int->float, x->Optional[x])."""
+    if getattr(t, "coerce_in", None) is not None:
+        # dynamically typed target (Json): python values are injected
+        r = t.coerce_in(v)
+        if r is not None:
+            return r
+        raise TypeError("cannot encode %s as %s" % (type(v).__name__, t))
     if isinstance(t, TOpt):
         if isinstance(v, VNone):
             return t.none()
@@ -551,12 +570,18 @@ def unwrap(v, t):
     if isinstance(t, TList) and isinstance(v, VSeq):
         if v.et != t.elem:
             raise TypeError("list elem mismatch %s vs %s" % (v.et, t.elem))
+        x = _eta(t.dt, [("arr", v.arr), ("n", v.n)])
+        if x is not None:
+            return x
         return t.dt.mk(v.arr, v.n)
     if isinstance(t, TMap) and isinstance(v, VMap):
         if v.kt != t.k or v.vt != t.v:
             raise TypeError("map mismatch")
         if t.ordered:
             return t.dt.mk(v.dom, v.val, v.card, v.order.arr)
+        x = _eta(t.dt, [("dom", v.dom), ("val", v.val), ("card", v.card)])
+        if x is not None:
+            return x
         return t.dt.mk(v.dom, v.val, v.card)
     if isinstance(t, TSet) and isinstance(v, VSet):
         return t.dt.mk(v.dom, v.card)
